@@ -641,6 +641,20 @@ fn main() {
         };
         par.push(format!("R {} {} {}", r.below(1 << 30), n, r.range(1, 3)));
     }
+    // N: like R, with answers on negative stream ids; K: the orphaner's threshold (1024 old orphans)
+    for k in 0..(if thorough { 60 } else { 8 }) {
+        let n = if k % 2 == 0 { 2000 } else { r.range(50, 2000) };
+        par.push(format!("N {} {} {}", r.below(1 << 30), n, r.range(1, 3)));
+    }
+    // S: submit storm, every caller aborted within 3 ms while 2000 submissions race for the channel
+    for _ in 0..(if thorough { 60 } else { 8 }) {
+        par.push(format!("S {} {}", r.below(1 << 30), r.range(1500, 2000)));
+    }
+    let ks: Vec<u64> = if thorough { vec![1025, 1024, 1100, 1000, 1026, 1023, 1500, 30, 1025, 1024] } else { vec![1025, 1024, 1200] };
+    for (i, a) in ks.iter().enumerate() {
+        // put them early: they take `hold` seconds
+        par.insert(i.min(par.len()), format!("K {} {} {} 4500", r.below(1 << 30), a, r.range(1, 60)));
+    }
     let big: Vec<u64> = if thorough { vec![e2e::BIG, (256 << 20) + 1, 256 << 20, (256 << 20) + 9, (300 << 20) + 12345] } else { vec![e2e::BIG] };
     par.extend(e2e::gen_reader_cases(&mut r, if thorough { 3000 } else { 300 }, &big));
     let handle = std::thread::spawn(move || run_parallel(par, 5));
